@@ -272,6 +272,15 @@ def parameter_programs():
             out.append(('param-lambda/%s/%s' % (o, sp), 'total = lambda %s: %s\n' % (
                 ('%s, %s%s' % (sp.format(n='extra_values'), o, '=2' if '=' in sp else '')) if '/' in sp else ('%s, %s' % (o, sp.format(n='extra_values'))),
                 o + ' + ' + use.format(n='extra_values') + ' + ' + use.format(n='extra_values'))))
+        # an ordinary parameter read from a nested scope that has busier locals of its own: the name the parameter keeps in
+        # the signature must stay reserved in every scope that reads it
+        nested = [('genexp', 'def total({o}, rows_value):\n    return sum(item_value * {o} + item_value + item_value for item_value in rows_value)\n'),
+                  ('lambda', 'def total({o}, rows_value):\n    key_function = lambda item_value, other_value=1: item_value * {o} + item_value + item_value + other_value + other_value\n    return sorted(rows_value, key=key_function)\n'),
+                  ('nested-def', 'def total({o}, count_value):\n    def inner_function(start_value):\n        running_value = start_value * {o}\n        running_value = running_value + start_value\n        return running_value + start_value + running_value\n    return inner_function(count_value)\n'),
+                  ('nested-two-deep', 'def total({o}, count_value):\n    def middle_function(first_value):\n        def inner_function(second_value):\n            third_value = second_value + second_value + second_value\n            return third_value * {o} + third_value\n        return inner_function(first_value) + first_value + first_value\n    return middle_function(count_value)\n'),
+                  ('method-genexp', 'class Holder:\n    def total(self, {o}, rows_value):\n        return [cell_value * {o} + cell_value + cell_value for cell_value in rows_value], list(cell_value * {o} + cell_value for cell_value in rows_value)\n')]
+        for kind, template in nested:
+            out.append(('param-nested/%s/%s' % (kind, o), template.format(o=o)))
         out.append(('param-two/%s' % o, 'def scale(%s, factor_value):\n    return %s * factor_value * factor_value * factor_value\n' % (o, o)))
         out.append(('param-kwonly/%s' % o, 'def scale(*values_list, %s=2):\n    return [value_item * %s for value_item in values_list] + values_list\n' % (o, o)))
     return out
